@@ -122,6 +122,8 @@ def run_task(name):
         out["status"] = "crash"
         out["detail"] = traceback.format_exc()[-2000:]
     out["assumed"] = sorted(models.ASSUMED_USED)
+    from pyvc import engine as _engine
+    out["locals"] = dict(_engine.LOCALS_SEEN)
     out["wall_s"] = round(time.time() - t0, 2)
     return out
 
@@ -165,6 +167,9 @@ def main():
                 "hints": r.get("hints", {}),
             }
             print(f"{r['task']:45s} {r['status']:15s} {len(lock[r['task']]['discharged'])}/{len(r['obligations'])} {r['wall_s']}s {r.get('detail','')[:200]}")
+        lock["__locals__"] = {}
+        for r in results:
+            lock["__locals__"].update(r.get("locals", {}))
         json.dump(lock, open(LOCK, "w"), indent=1, sort_keys=True)
         return
     lock = json.load(open(LOCK)) if os.path.exists(LOCK) else {}
